@@ -2,7 +2,8 @@
 (* Trace validation for C15: the ndjson log recorded from the real FailableMemoryAllocator and the real
    cpputest_malloc_* interface must be a behaviour of FailAlloc.  Bound per call: res = what the caller
    saw ("ok" = non-NULL, "null" = NULL or std::bad_alloc, "reported" = the were-all-done check failed the
-   test, "none").  Which of several coinciding designations an allocation uses up is not logged: TLC
+   test, "none").  The value cpputest_malloc_get_count returns after the call is logged too (count) and predicted (Predict: count_read) as a
+   diagnostic, but not bound: C15 fixes which allocations fail, not what the statistics counter counts (e.g. whether failed requests count).  Which of several coinciding designations an allocation uses up is not logged: TLC
    searches the choices the specification leaves open. *)
 EXTENDS FailAlloc, Json, IOUtils
 VARIABLE l
@@ -19,21 +20,24 @@ Walk == \/ Is("failnum") /\ FailNumber(E.n)
         \/ Is("countdown") /\ Countdown(E.n)
         \/ Is("setoom") /\ SetOOM
         \/ Is("setnotoom") /\ SetNotOOM
+        \/ Is("countreset") /\ CountReset
+        \/ Is("getcount") /\ GetCount
         \/ Is("c") /\ E.via \in CFns /\ \E C \in SUBSET Matching(E.loc) : CAlloc(E.via, E.loc, C)
 
 TInit == Init /\ l = 1
-TNext == Walk /\ last'.res = E.res
-\* executions are concatenated with reset lines (fresh allocator, injections cleared)
+ObsOK(res, cnt) == res = E.res
+TNext == Walk /\ ObsOK(last'.res, mc')
+\* executions are concatenated with reset lines (fresh allocator, injections cleared, statistics reset)
 TReset == /\ Is("reset") /\ pending' = <<>> /\ count' = 0 /\ todo' = {} /\ lc' = [x \in Locs |-> 0]
-          /\ cd' = -1 /\ oom' = FALSE /\ cn' = -1 /\ cseen' = 0 /\ forced' = FALSE
+          /\ cd' = -1 /\ oom' = FALSE /\ cn' = -1 /\ cseen' = 0 /\ forced' = FALSE /\ mc' = 0
           /\ last' = Outcome("init", "none", FALSE)
 TSpec == TInit /\ [][TNext \/ TReset]_tvars
 Accepted == TLCGet("stats").diameter - 1 = Len(Tr)
 TInv == /\ ExactlyDesignated /\ ReportsUndone /\ PendingLive /\ ClearRestores
-        /\ CountdownFires /\ CountdownNotEarly /\ NotOomRestores
+        /\ CountdownFires /\ CountdownNotEarly /\ NotOomRestores /\ CountResetZeroes
 
 \* diagnostics: the same walk without binding the observations; prints what the specification predicts
 PSpec == TInit /\ [][Walk \/ TReset]_tvars
 Predict == (l > 1 /\ l - 1 >= atoi(IOEnv.FROM_LINE_N)) =>
-              PrintT(<<"BEH", ToJson([line |-> l - 1, last |-> last, pending |-> pending, count |-> count, cd |-> cd, oom |-> oom])>>)
+              PrintT(<<"BEH", ToJson([line |-> l - 1, last |-> last, pending |-> pending, count |-> count, cd |-> cd, oom |-> oom, count_read |-> mc])>>)
 =============================================================================
